@@ -128,6 +128,12 @@ impl Compound {
         Some(Self { names })
     }
 
+    /// Test if the given state belongs to a unit which stands alone with power
+    /// one in this compound.
+    fn is_scale(&self, state: &State) -> bool {
+        self.names.len() == 1 && state.power == 1
+    }
+
     /// Test if this unit has a numerator.
     pub fn has_numerator(&self) -> bool {
         self.names.values().any(|s| s.power > 0)
@@ -179,13 +185,13 @@ impl Compound {
             *value *= Rational::new(10u32, 1u32).pow(state.prefix * state.power);
 
             if let Some(conversion) = name.conversion() {
-                apply_conversion(state.power, value, conversion)?;
+                apply_conversion(state.power, value, conversion, other.is_scale(state))?;
             }
         }
 
         for (name, state) in &self.names {
             if let Some(conversion) = name.conversion() {
-                apply_conversion(-state.power, value, conversion)?;
+                apply_conversion(-state.power, value, conversion, self.is_scale(state))?;
             }
 
             *value /= Rational::new(10u32, 1u32).pow(state.prefix * state.power);
@@ -243,11 +249,12 @@ impl Compound {
             }
         }
 
+        // Products and quotients are never points on an offset scale.
         for (name, state) in &self.names {
             *lhs *= Rational::new(10u32, 1u32).pow(state.prefix * state.power);
 
             if let Some(conversion) = name.conversion() {
-                apply_conversion(state.power, lhs, conversion)?;
+                apply_conversion(state.power, lhs, conversion, false)?;
             }
         }
 
@@ -255,7 +262,7 @@ impl Compound {
             *rhs *= Rational::new(10u32, 1u32).pow(state.prefix * state.power);
 
             if let Some(conversion) = name.conversion() {
-                apply_conversion(state.power, rhs, conversion)?;
+                apply_conversion(state.power, rhs, conversion, false)?;
             }
         }
 
@@ -317,7 +324,7 @@ impl Compound {
                     // original factor modifier, which we apply to mod_power to
                     // get the original power back. Then we multiply by `-1`
                     // because we want to shed the multiples here.
-                    apply_conversion(-mod_power, out, conversion)?;
+                    apply_conversion(-mod_power, out, conversion, false)?;
                 }
             }
 
@@ -519,14 +526,20 @@ impl fmt::Display for Compound {
     }
 }
 
+/// Apply the conversion of a unit raised to `pow`.
+///
+/// `scale` tells if the unit stands alone with power one, which is the only
+/// position in which a value is a point on an offset scale (like `°C`) so that
+/// its zero point may be shifted.
 fn apply_conversion(
     pow: i32,
     ratio: &mut Rational,
     conversion: Conversion,
+    scale: bool,
 ) -> Result<(), CompoundError> {
     match conversion {
         Conversion::Methods(methods) => {
-            if pow.abs() != 1 {
+            if !scale || pow.abs() != 1 {
                 return Err(CompoundError);
             }
 
@@ -544,7 +557,7 @@ fn apply_conversion(
             }
         }
         Conversion::Offset(fraction) => {
-            if pow.abs() != 1 {
+            if !scale || pow.abs() != 1 {
                 return Err(CompoundError);
             }
 
